@@ -1,1 +1,195 @@
-// harnesses for src/sync_semphore (child module, cfg(kani) only)
+// C10 (Semphore half): harnesses over the real src/sync/semphore.rs + SyncBlocker.
+// Child module of src/sync/semphore.rs (cfg(kani) only).
+//
+// Real code: Semphore::{new, wait, wait_timeout, wait_timeout_impl, try_wait, post, wakeup_one,
+// get_value}, SyncBlocker::{current, park, unpark, is_unparked, set_release, take_release}.
+// Models: waiter queue (crossbeam SegQueue, trusted) = FIFO; Blocker::{park, unpark} = one wake
+// token + "a timed park may give up at any moment" (contract decided for the real Park in
+// C02 / C08).
+use super::*;
+use crate::sync::blocking::Blocker;
+use crate::verif_shim::{np, rt, sa};
+use std::panic as stdpanic;
+
+static mut S: *const Semphore = std::ptr::null();
+static mut MAXD: usize = 1;
+static mut POST_LEFT: usize = 0;
+static mut POSTS: isize = 0; // posts started
+static mut W2_LEFT: bool = false; // a second (non-blocking) taker: try_wait
+static mut SUCCESSES: isize = 0;
+static mut TIMED_OUT: bool = false;
+static mut ROOT_PARKED: bool = false;
+static mut QTAB: [u64; 4] = [0; 4];
+static mut QH: usize = 0;
+static mut QT: usize = 0;
+
+fn is_coroutine_false() -> bool {
+    false
+}
+fn q_push<T>(_q: &SegQueue<T>, v: T) {
+    np::point();
+    assert!(std::mem::size_of::<T>() == 8);
+    unsafe {
+        assert!(QT < 4);
+        QTAB[QT] = std::mem::transmute_copy::<T, u64>(&v);
+        QT += 1;
+    }
+    std::mem::forget(v);
+}
+fn q_pop<T>(_q: &SegQueue<T>) -> Option<T> {
+    np::point();
+    unsafe {
+        if QH == QT {
+            None
+        } else {
+            let r = std::mem::transmute_copy::<u64, T>(&QTAB[QH]);
+            QH += 1;
+            Some(r)
+        }
+    }
+}
+fn run_post() {
+    unsafe {
+        POST_LEFT -= 1;
+        POSTS += 1;
+        (*S).post();
+    }
+}
+fn run_w2() {
+    unsafe {
+        W2_LEFT = false;
+        if (*S).try_wait() {
+            SUCCESSES += 1;
+        }
+    }
+}
+fn hook() {
+    unsafe {
+        if np::DEPTH < MAXD {
+            if POST_LEFT > 0 && kani::any() {
+                np::nested(run_post);
+            }
+            if np::DEPTH < MAXD && W2_LEFT && kani::any() {
+                np::nested(run_w2);
+            }
+        }
+    }
+}
+fn unpark_model(b: &Blocker) {
+    np::point();
+    unsafe { *crate::sync::blocking::verif_kani::blocker_token(b) = 1 };
+}
+fn park_model(b: &Blocker, timeout: Option<Duration>) -> Result<(), ParkError> {
+    np::point();
+    let tok = crate::sync::blocking::verif_kani::blocker_token(b);
+    unsafe {
+        if *tok != 0 {
+            *tok = 0;
+            return Ok(());
+        }
+        assert!(np::DEPTH == 0, "model: only the root waiter blocks");
+        // the timer may win the race against a later post
+        if timeout.is_some() && kani::any() {
+            TIMED_OUT = true;
+            return Err(ParkError::Timeout);
+        }
+        ROOT_PARKED = true;
+        // parked: the posters that are left act now (a blocked frame is inert)
+        while *tok == 0 && POST_LEFT > 0 {
+            run_post();
+        }
+        if *tok != 0 {
+            *tok = 0;
+            return Ok(());
+        }
+        if timeout.is_some() {
+            TIMED_OUT = true;
+            return Err(ParkError::Timeout);
+        }
+        // untimed and nobody is left to post: legitimate only if no permit is owed
+        assert!(POSTS + INIT - SUCCESSES <= 0, "C10: a waiter stays parked for ever although permits suffice (permit lost)");
+        kani::assume(false);
+        Ok(())
+    }
+}
+static mut INIT: isize = 0;
+
+macro_rules! sem_harness {
+    ($(#[$m:meta])* fn $name:ident() $body:block) => {
+        #[kani::proof]
+        $(#[$m])*
+        #[kani::stub(core::sync::atomic::Atomic::<isize>::fetch_sub, sa::isize_fetch_sub)]
+        #[kani::stub(core::sync::atomic::Atomic::<isize>::fetch_add, sa::isize_fetch_add)]
+        #[kani::stub(core::sync::atomic::Atomic::<isize>::load, sa::isize_load)]
+        #[kani::stub(core::sync::atomic::Atomic::<isize>::compare_exchange, sa::isize_cas)]
+        #[kani::stub(core::sync::atomic::Atomic::<bool>::load, sa::bool_load)]
+        #[kani::stub(core::sync::atomic::Atomic::<bool>::store, sa::bool_store)]
+        #[kani::stub(core::sync::atomic::Atomic::<bool>::swap, sa::bool_swap)]
+        #[kani::stub(crossbeam::queue::SegQueue::push, q_push)]
+        #[kani::stub(crossbeam::queue::SegQueue::pop, q_pop)]
+        #[kani::stub(crate::sync::blocking::Blocker::park, park_model)]
+        #[kani::stub(crate::sync::blocking::Blocker::unpark, unpark_model)]
+        #[kani::stub(crate::coroutine_impl::is_coroutine, is_coroutine_false)]
+        #[kani::stub(std::thread::panicking, np::panicking_stub)]
+        #[kani::stub(stdpanic::catch_unwind, rt::catch_unwind_stub)]
+        #[kani::stub(stdpanic::take_hook, rt::take_hook_stub)]
+        #[kani::stub(stdpanic::set_hook, rt::set_hook_stub)]
+        #[kani::stub(std::sync::Arc::drop_slow, rt::arc_drop_slow_stub)]
+        fn $name() $body
+    };
+}
+
+/// root waiter: wait() or wait_timeout(); posters (1-2 posts) and a second taker (try_wait) land
+/// at any atomic step - including the steps of the time-out hand-shake after park gave up
+fn waiter_vs_posts(depth: usize, posts: usize, with_w2: bool) {
+    let init: usize = kani::any();
+    kani::assume(init <= 1);
+    let s: &'static Semphore = Box::leak(Box::new(Semphore::new(init)));
+    let timed: bool = kani::any();
+    unsafe {
+        S = s;
+        MAXD = depth;
+        INIT = init as isize;
+        POST_LEFT = posts;
+        W2_LEFT = with_w2;
+        np::HOOK = Some(hook);
+    }
+    let ok = if timed {
+        s.wait_timeout(Duration::from_millis(5))
+    } else {
+        s.wait();
+        true
+    };
+    unsafe {
+        if ok {
+            SUCCESSES += 1;
+        }
+        assert!(SUCCESSES <= INIT + POSTS, "C10: more successful waits than initial value + posts (permit duplicated)");
+        if !ok {
+            assert!(timed && TIMED_OUT, "C10: wait gave up without a time-out");
+        }
+        kani::cover!(!ok && np::PREEMPTS > 0, "time-out raced with a post");
+        kani::cover!(ok && ROOT_PARKED, "waiter parked and was woken by a post");
+        np::HOOK = None;
+        while POST_LEFT > 0 {
+            run_post();
+        }
+        if W2_LEFT {
+            run_w2();
+        }
+        // quiescence: permits conserved.  A waiter that gave up leaves its (released) blocker in
+        // the queue and its decrement in the counter; the next post forwards the permit, so the
+        // effective value is cnt + queued give-ups.
+        let cnt = *s.cnt.as_ptr();
+        let stale = (QT - QH) as isize;
+        assert!(cnt + stale == INIT + POSTS - SUCCESSES, "C10: permits not conserved at quiescence (lost or duplicated)");
+        assert!(stale == 0 || !ok, "C10: a live waiter is left in the queue");
+        let expect = INIT + POSTS - SUCCESSES;
+        if stale == 0 {
+            assert!(s.get_value() as isize == expect);
+        }
+    }
+}
+sem_harness! { #[kani::unwind(3)] fn c10_sem_waiter_vs_post_d1() { waiter_vs_posts(1, 1, false) } }
+sem_harness! { #[kani::unwind(4)] fn c10_sem_waiter_vs_2posts_w2_d1() { waiter_vs_posts(1, 2, true) } }
+sem_harness! { #[kani::unwind(4)] fn c10_sem_waiter_vs_2posts_d2() { waiter_vs_posts(2, 2, false) } }
